@@ -10,6 +10,11 @@ CHECKS = {
     technique="TLA+ spec of error values as layer chains (LogElide.tla) model-checked with TLC; every chain of the model instantiated as a real Go error and the outputs of the real ElideError/ElideAddr validated by TLC",
     text="TLC enumerates every error shape built from the standard network error types to nesting depth 3 (1813 chains) and checks on the transcription of the type switch that no sensitive atom survives (and that the two deviations of the pinned code are visible to the model); each chain is then instantiated with unique marker addresses as a real error value, run through the real functions in safe and unsafe mode, and TLC validates the recorded outcomes against the property (no marker in safe mode, identity in unsafe mode).",
     note="Trusted: TLC, marker-substring detection of surviving atoms, the instantiation table shape->Go value. Non-network wrapper text is assumed address-free (documented contract). Depth bounded by 3 wrappers."),
+ "C19": dict(
+    category="model_checking", design_ref="DESIGN.md section 5, C19",
+    technique="TLA+ specs of copyLoop (Relay.tla) and the termination monitor (TermMon.tla) model-checked with TLC incl. liveness; TLC-generated environment scripts replayed on the real copyLoop/termMonitor through an overlay in-package driver; recorded traces validated by TLC with the monitor's unlogged steps inferred",
+    text="TLC checks exhaustively (small constants, safety and liveness under weak fairness) that the relay design forwards prefixes, flushes a finished side before closing the healthy one, closes both and returns, and that the shutdown monitor's count matches and a graceful shutdown completes exactly when no handler is active (the pinned code's deviation is shown to violate it). Every environment history of the bounded relay model and all handler/signal orders up to a bound are executed on the real code; 'blocked for good' is a state predicate (wire park state / goroutine in select with no pending sender), and TLC validates every recorded trace against the specs.",
+    note="Trusted: TLC, harness wire connections, runtime.Stack based stuck predicate, the overlay driver constructing the monitor via newTermMonitor() and offering signals on sigChan. Go scheduler interleavings between harness steps are sampled (settled and racy variants), not enumerated."),
 }
 NOT_APPLICABLE = {
  "C07": "Elligator2 is pure field arithmetic over GF(2^255-19) with no state, schedule or history; TLC (32-bit integers, no bignums) could only restate the map over a toy field that nothing can bind to the fixed-field code, so a TLA+ model would be a specification nothing binds to the code (DESIGN.md section 6).",
